@@ -97,7 +97,11 @@ def main(argv):
                     prop_fail.append(rec)
                     continue
                 if spec != "-" and impl != spec:
-                    # no known findings are registered for C06: every failure is a violation
+                    # narrow classifier: attributed to a listed finding only when impl = model and the
+                    # model with that finding's repair applied (runner column 4) equals the specification
+                    if impl == model and tag and c.known_finding(tag, rec["text"].replace("\n", " <newline> ")):
+                        known_rows += 1
+                        continue
                     prop_fail.append(rec)
                     continue
                 # value / effects of the block against the prefix forms (stage 2)
